@@ -809,6 +809,113 @@ func scripts() [][]*opT {
 	}
 }
 
+
+// ---- the message splitters on lists around MaxMembersPerMessage --------------------------------------------------------
+
+type run struct{ v, c int }
+
+func rleCoq(rs []run) string {
+	ss := make([]string, len(rs))
+	for i, r := range rs {
+		ss[i] = fmt.Sprintf("(%d,%d)", r.v, r.c)
+	}
+	return "[" + strings.Join(ss, ";") + "]"
+}
+func rleOf(xs []string) []run {
+	var out []run
+	for _, x := range xs {
+		v := memberNum(0, x)
+		if n := len(out); n > 0 && out[n-1].v == v {
+			out[n-1].c++
+		} else {
+			out = append(out, run{v, 1})
+		}
+	}
+	return out
+}
+func expandRuns(rs []run) []string {
+	var out []string
+	for _, r := range rs {
+		for i := 0; i < r.c; i++ {
+			out = append(out, memberName(0, r.v))
+		}
+	}
+	return out
+}
+
+// total members in runs of random length, values base..base+4, neighbours different
+func genRuns(r *rng, total, base int) []run {
+	out := []run{}
+	v := r.intn(5)
+	for total > 0 {
+		c := 1 + r.intn(total)
+		if r.intn(3) == 0 && total > 10 && len(out) < 12 {
+			c = 1 + r.intn(10)
+		}
+		out = append(out, run{base + v, c})
+		total -= c
+		v = (v + 1 + r.intn(4)) % 5
+	}
+	return out
+}
+
+func splitCase(r *rng, upd bool, na, nr int) line {
+	adds, dels := genRuns(r, na, 0), []run{}
+	if !upd {
+		dels = genRuns(r, nr, 5)
+	}
+	var msgs []*proto.ToDataplane
+	if upd {
+		msgs = policysync.VerifSplitIPSetUpdate(&proto.IPSetUpdate{Id: setName(0), Type: proto.IPSetUpdate_IP, Members: expandRuns(adds)})
+	} else {
+		msgs = policysync.VerifSplitIPSetDeltaUpdate(&proto.IPSetDeltaUpdate{Id: setName(0), AddedMembers: expandRuns(adds), RemovedMembers: expandRuns(dels)})
+	}
+	var obs []string
+	for _, m := range msgs {
+		switch pl := m.Payload.(type) {
+		case *proto.ToDataplane_IpsetUpdate:
+			id := 0
+			if pl.IpsetUpdate.GetId() != setName(0) || pl.IpsetUpdate.GetType() != proto.IPSetUpdate_IP {
+				id = 1
+			}
+			if id != 0 {
+				obs = append(obs, "(true, ([(99,1)], []))")
+				continue
+			}
+			obs = append(obs, fmt.Sprintf("(true, (%s, []))", rleCoq(rleOf(pl.IpsetUpdate.GetMembers()))))
+		case *proto.ToDataplane_IpsetDeltaUpdate:
+			if pl.IpsetDeltaUpdate.GetId() != setName(0) {
+				obs = append(obs, "(true, ([(98,1)], []))")
+				continue
+			}
+			obs = append(obs, fmt.Sprintf("(false, (%s, %s))", rleCoq(rleOf(pl.IpsetDeltaUpdate.GetAddedMembers())), rleCoq(rleOf(pl.IpsetDeltaUpdate.GetRemovedMembers()))))
+		default:
+			obs = append(obs, "(true, ([(97,1)], []))")
+		}
+	}
+	b := "false"
+	kind := "split:delta"
+	if upd {
+		b = "true"
+		kind = "split:update"
+	}
+	coq := fmt.Sprintf("CSplit (mkSplit %d %s %s %s [%s])", policysync.MaxMembersPerMessage, b, rleCoq(adds), rleCoq(dels), strings.Join(obs, "; "))
+	tags := []string{kind, fmt.Sprintf("split:messages:%d", min(len(msgs), 4))}
+	return line{Coq: coq, NT: len(msgs) >= 2, Key: coq,
+		Sample: map[string]any{"kind": kind, "added": na, "removed": nr, "messages": len(msgs)}, Tags: tags}
+}
+
+func splitCases(r *rng, enc *json.Encoder) {
+	N := policysync.MaxMembersPerMessage
+	for _, k := range []int{0, 5, N, N + 1, 2*N + 3, N + 1 + r.intn(N)} {
+		_ = enc.Encode(splitCase(r, true, k, 0))
+	}
+	for _, ar := range [][2]int{{0, 0}, {3, 2}, {N + 1, 5}, {N, 1}, {5, N + 1}, {N + 1, N + 1}, {2*N + 1, 2*N + 1},
+		{N - 3, 2}, {N - 3, 4}, {r.intn(3 * N), r.intn(3 * N)}} {
+		_ = enc.Encode(splitCase(r, false, ar[0], ar[1]))
+	}
+}
+
 // ---- running the real Processor --------------------------------------------------------------------------------------
 
 type chanObs struct {
@@ -847,6 +954,7 @@ func main() {
 	logrus.SetLevel(logrus.PanicLevel)
 	r := &rng{s: *seed}
 	enc := json.NewEncoder(os.Stdout)
+	splitCases(r, enc)
 	for i := 0; i < *n; i++ {
 		g := &gen{r: r, eps: map[int]*epT{}, pols: map[int]*rulesT{}, profs: map[int]*rulesT{}, ips: map[int]bool{},
 			sas: map[int]bool{}, nss: map[int]bool{}, conn: map[int]int{}, oldUIDs: map[int][]int{}, tags: map[string]bool{}}
@@ -937,7 +1045,7 @@ func main() {
 			pk = fmt.Sprintf("(Some %d)", panicAt)
 			g.tags["panic"] = true
 		}
-		coq := fmt.Sprintf("mkCase [%s] %s [%s]", strings.Join(opStrs, "; "), pk, strings.Join(chStrs, "; "))
+		coq := fmt.Sprintf("CHist (mkCase [%s] %s [%s])", strings.Join(opStrs, "; "), pk, strings.Join(chStrs, "; "))
 		tags := []string{fmt.Sprintf("joins:%d", min(len(chans), 4))}
 		if breakAt >= 0 {
 			tags = append(tags, "stream:malformed")
